@@ -12,6 +12,7 @@ from fractions import Fraction as F
 
 import analysis
 import common
+import reuse
 from analysis import ALTS, CELLS, FIELDS, parse_result, same
 from common import Check, Driver, rand_frac, rs
 
@@ -196,6 +197,7 @@ def main():
     sample_laws(chk)
     analysis.float_far_tail(chk, 12 if chk.tier == "quick" else 120, clauses=("duality",))
     analysis.float_duality_boundary(chk, 24 if chk.tier == "quick" else 240)
+    reuse.metric_object_reuse(chk, 24 if chk.tier == "quick" else 240, "coherence of a result must not depend on earlier analyses")
     chk.cov["rule"] = ("exact: random rational (mean, var, count) per variant x 12 cells x level, real _analyze_stats "
                        "vs Gen and Spec at Q; float: random valid aggregates (counts 2..1e6, scales 1e-3..1e3) x 3 "
                        "alternatives x pairs of levels, all coherence relations of the property asserted")
